@@ -12,12 +12,19 @@
    successor state, and nothing is left in either buffer; by induction (C15_session) this holds for every
    session of such operations the reference server accepts, of any length, for every sequence of encoding
    choices.  Segmentation independence of every operation is C05 (interp agrees with the stream
-   semantics used here).  LISTSCRIPTS / GETSCRIPT / the emulated rename are composed in the
-   correspondence check (model client vs real client vs server state after every step of generated
-   sessions), not in Coq: the assembling step of read_response with quoted literals is not proved. *)
+   semantics used here).
+   The data-bearing operations (ms/DataFacts.v, ms/SessionData.v): whatever encoding the server chooses for
+   each name of a listing and for a script (quoted string or literal; with or without the extra CRLF after a
+   literal), __read_response assembles exactly the canonical text (C15_assemble_listing, C15_assemble_script),
+   so LISTSCRIPTS returns exactly the names of the store with the active one apart and GETSCRIPT exactly the
+   lines of the stored script, the server state unchanged and both buffers empty (C15_listscripts,
+   C15_getscript); and whole sessions mixing all eight operations stay in step (C15_session_with_data).
+   Names in listings are assumed free of CR / LF.  The emulated rename is a composition of these operations
+   (its safety is C14); GETSCRIPT of a missing script and LOGOUT / CAPABILITY are covered by the
+   correspondence check only. *)
 From Coq Require Import String.
 From Coq Require Import List NArith Bool Arith.
-From SV Require Import Bytes Base64 Client Transport Server Session WriterFacts StatusFacts SessionFacts.
+From SV Require Import Bytes Base64 Client Transport Server Session WriterFacts StatusFacts DecodeFacts DataFacts SessionFacts SessionData.
 Import ListNotations.
 Local Open Scope nat_scope.
 
@@ -56,7 +63,7 @@ Theorem C15_step :
     s_store s3 = s_store s2 /\
     s_active s3 = s_active s2 /\
     s_cfg s3 = s_cfg (s_peer sstate w) /\
-    interp_s sstate srv_react srv_connect srv_tls (simple_cmd (S f) verb args st finish) w =
+    runS (simple_cmd (S f) verb args st finish) w =
     (answer_outcome a c st,
      {|
        s_peer := s3;
@@ -85,6 +92,144 @@ Theorem C15_session :
     s_peer sstate w' = s' /\ s_stream sstate w' = [] /\ conforming s'.
 Proof. exact SessionFacts.session_in_step. Qed.
 Print Assumptions C15_session.
+
+(* __read_response on a listing in any mix of encodings, followed by the status reply: the canonical listing, the reply consumed exactly *)
+Theorem C15_assemble_listing :
+  forall (P : Type) (react : P -> bytes -> P * bytes) (oc ot : P -> option (P * bytes))
+    (es : list (bytes * bool * enc)) (r : reply) (f : nat) (resp : bytes) 
+    (cpt : nat) (st : cstate) (k : cstate -> option bytes -> option bytes -> bytes -> prog)
+    (w : sworld P) (rest : list N),
+  Forall (fun x : bytes * bool * enc => name_ok (fst (fst x))) es ->
+  reply_ok r ->
+  s_stream P w = listing_stream es ++ render_reply r ++ rest ->
+  interp_s P react oc ot (read_response (S (Datatypes.length es + f)) None true resp cpt st k)
+    w =
+  match r_status r with
+  | StOK =>
+      interp_s P react oc ot
+        (k st (Some (bs "OK")) (data_of r) (resp ++ listing_resp (map fst es)))
+        (s_set P rest w)
+  | StNO =>
+      interp_s P react oc ot
+        (k (set_err (code_of r) (text_of r) st) (Some (bs "NO")) (data_of r)
+           (resp ++ listing_resp (map fst es))) (s_set P rest w)
+  | StBYE => (OFail ExBye st, s_set P (after_line r ++ rest) w)
+  end.
+Proof. exact DataFacts.read_response_listing. Qed.
+Print Assumptions C15_assemble_listing.
+
+(* __read_response on a script sent quoted or as a literal, with or without the extra CRLF *)
+Theorem C15_assemble_script :
+  forall (P : Type) (react : P -> bytes -> P * bytes) (oc ot : P -> option (P * bytes))
+    (c : bytes) (enc : enc) (eol : bytes) (r : reply) (f : nat) (st : cstate)
+    (k : cstate -> option bytes -> option bytes -> bytes -> prog) 
+    (w : sworld P) (rest : list N),
+  reply_ok r ->
+  eol = CRLF \/ eol = [] /\ sent_quoted enc c = false /\ ends_with CRLF c = true ->
+  s_stream P w = render_string enc c ++ eol ++ render_reply r ++ rest ->
+  exists tail : list N,
+    interp_s P react oc ot (read_response (S (S (S f))) None true [] 0 st k) w =
+    match r_status r with
+    | StOK =>
+        interp_s P react oc ot (k st (Some (bs "OK")) (data_of r) (quote c ++ tail))
+          (s_set P rest w)
+    | StNO =>
+        interp_s P react oc ot
+          (k (set_err (code_of r) (text_of r) st) (Some (bs "NO")) 
+             (data_of r) (quote c ++ tail)) (s_set P rest w)
+    | StBYE => (OFail ExBye st, s_set P (after_line r ++ rest) w)
+    end.
+Proof. exact DataFacts.read_response_script. Qed.
+Print Assumptions C15_assemble_script.
+
+(* LISTSCRIPTS end to end against the reference server *)
+Theorem C15_listscripts :
+  forall (f : nat) (st : cstate) (w : sworld sstate),
+  c_auth st = true ->
+  s_stream sstate w = [] ->
+  conforming (s_peer sstate w) ->
+  names_ok (s_peer sstate w) ->
+  let s := s_peer sstate w in
+  let es := listing_entries (s_store s) (s_active s) in
+  exists s3 : sstate,
+    runS (listscripts (S (Datatypes.length (s_store s) + f)) st finish) w =
+    (ODone
+       (VListing (last_active es) (map fst (filter (fun e : bytes * bool => negb (snd e)) es)))
+       st,
+     {|
+       s_peer := s3;
+       s_stream := [];
+       s_n := S (s_n sstate w);
+       s_conn := s_conn sstate w;
+       Transport.s_tls := Transport.s_tls sstate w;
+       s_log :=
+         WSend (s_conn sstate w) (Transport.s_tls sstate w)
+           (command_bytes (bs "LISTSCRIPTS") []) :: s_log sstate w
+     |}) /\
+    conforming s3 /\
+    s_store s3 = s_store s /\
+    s_active s3 = s_active s /\
+    s_cfg s3 = s_cfg s /\ s3 = snd (render_answer AnsListing (booked (bs "LISTSCRIPTS") [] s)).
+Proof. exact SessionData.listscripts_against_server. Qed.
+Print Assumptions C15_listscripts.
+
+(* GETSCRIPT of an existing script end to end *)
+Theorem C15_getscript :
+  forall (f : nat) (name content : bytes) (st : cstate) (w : sworld sstate),
+  c_auth st = true ->
+  s_stream sstate w = [] ->
+  conforming (s_peer sstate w) ->
+  assoc_get name (s_store (s_peer sstate w)) = Some content ->
+  let s := s_peer sstate w in
+  exists s3 : sstate,
+    runS (getscript (S (S (S f))) name st finish) w =
+    (ODone (VBytes (join [10%N] (splitlines content))) st,
+     {|
+       s_peer := s3;
+       s_stream := [];
+       s_n := S (s_n sstate w);
+       s_conn := s_conn sstate w;
+       Transport.s_tls := Transport.s_tls sstate w;
+       s_log :=
+         WSend (s_conn sstate w) (Transport.s_tls sstate w)
+           (command_bytes (bs "GETSCRIPT") [AStr name]) :: s_log sstate w
+     |}) /\
+    conforming s3 /\
+    s_store s3 = s_store s /\
+    s_active s3 = s_active s /\
+    s_cfg s3 = s_cfg s /\
+    s3 = snd (render_answer (AnsScript content) (booked (bs "GETSCRIPT") [PStr name] s)).
+Proof. exact SessionData.getscript_against_server. Qed.
+Print Assumptions C15_getscript.
+
+(* sessions of all eight operations, any length, any encoding choices *)
+Theorem C15_session_with_data :
+  forall (F : nat) (ops : list op) (st : cstate) (w : sworld sstate) 
+    (outs : list outcome) (st' : cstate) (s' : sstate),
+  c_auth st = true ->
+  s_stream sstate w = [] ->
+  conforming (s_peer sstate w) ->
+  abs_run F ops (s_peer sstate w) st outs st' s' ->
+  exists w' : sworld sstate,
+    run_ops_s sstate srv_react srv_connect srv_tls F ops st w = (outs, st', w') /\
+    s_peer sstate w' = s' /\ s_stream sstate w' = [] /\ conforming s'.
+Proof. exact SessionData.session_with_data. Qed.
+Print Assumptions C15_session_with_data.
+
+(* non-vacuity: a concrete session with two listings and a fetch *)
+Theorem C15_session_with_data_example :
+  exists (outs : list outcome) (st' : cstate) (s' : sstate),
+    abs_run 10
+      [OPutscript (bs "b") (bs "stop;"); OListscripts; OGetscript (bs "b");
+       OSetactive (bs "b"); OListscripts] demo_server ex_st0 outs st' s' /\
+    map (fun o : outcome => match o with
+                            | ODone v _ => Some v
+                            | OFail _ _ => None
+                            end) outs =
+    [Some (VBool true); Some (VListing (Some (bs "a")) [bs "b"]); 
+     Some (VBytes (bs "stop;")); Some (VBool true); Some (VListing (Some (bs "b")) [bs "a"])].
+Proof. exact SessionData.session_data_example. Qed.
+Print Assumptions C15_session_with_data_example.
 
 (* what the abstract session is: the server's own exec_command, command by command *)
 Example C15_session_example :
